@@ -286,6 +286,21 @@ def run(ctx):
                     'parse(dump(v)+tail) != (v, tail)')
         except Exception as e:
             bad(dict(value=repr(v)[:300], dump=d[:200].hex(), tail=tl.hex()), 'parse(dump(v)+tail) raised %s' % type(e).__name__)
+    # text in other encodings: parse(dump(v, encoding=E), encoding=E) gives v back, whatever E and wherever the text sits
+    nenc = 0
+    texts = ['caf\xe9', '\xb5m', 'na\xefve \xff', 'plain']
+    for encn in ('latin-1', 'utf-16', 'utf-8', 'cp1252'):
+        for t in texts:
+            for v in (t, [t], {'k': t}, {'a': {'b': [t, {'c': t}]}}, [{'k': [t]}, t], {'k': 1, 'l': [None, t, b'raw']}):
+                nenc += 1
+                try:
+                    d = tnetstrings.dump(v, encoding=encn)
+                    pv, rem = tnetstrings.parse(d + b'~tail', encoding=encn)
+                except Exception as e:
+                    bad(dict(value=repr(v), encoding=encn), 'parse(dump(v, encoding), encoding) raised %s' % type(e).__name__); continue
+                if not same(pv, v) or rem != b'~tail':
+                    bad(dict(value=repr(v), encoding=encn, dump=d.hex(), parsed=repr(pv)), 'parse(dump(v, encoding=E) + tail, encoding=E) != (v, tail)')
+    cov['round_trips_in_other_text_encodings'] = nenc
     # float text oracle assumption
     nfl = 0
     for f in FLOATS + [rng.uniform(-1e9, 1e9) for _ in range(200)]:
